@@ -12,14 +12,31 @@ Open Scope Z_scope.
    step that allocates it (a fresh id no thread holds yet -- the C09 model after fix
    9e45e57), and an unpublished PartitionLog is touched only by its single-flight
    creator. *)
-Theorem C41_lockset : forall cap evs s,
-  run (init cap) evs = Some s ->
+Theorem C41_lockset : forall cap pubs evs s,
+  run (init_cold cap pubs) evs = Some s ->
   forall t1 a1 t2 a2, t1 <> t2 ->
     enabled s t1 a1 = true -> enabled s t2 a2 = true ->
     conflict (footprint s a1) (footprint s a2) = true ->
     common_lock (footprint s a1) (footprint s a2) = true.
 Proof. exact lockset_discipline. Qed.
 Print Assumptions C41_lockset.
+
+(* the quantification includes every "cold" start: [init_cold cap pubs] has the logs
+   [pubs] already published (freshly constructed or rebuilt by RestoreFromS3) and no
+   operation has run on them, so all first operations are concurrent. *)
+
+(* the field table (model/Lockset.v, compared with the structs' real field lists by the
+   harness): no field is written after construction without a lock, and every step
+   touching the location of a lock-guarded field holds that lock (or is the unpublished
+   log's single-flight initialisation). *)
+Theorem C41_fields_guarded : existsb (fun e => is_unguarded (snd e)) field_table = false.
+Proof. vm_compute. reflexivity. Qed.
+Print Assumptions C41_fields_guarded.
+
+Theorem C41_guard_locks_held : forall g l x k s a,
+  guard_loc g l = Some (x, k) -> touches s a x = true -> holds_lock s a k = true \/ is_init a = true.
+Proof. exact guard_locks_held. Qed.
+Print Assumptions C41_guard_locks_held.
 
 (* non-vacuity: a reachable state in which thread 1 still reads a handed-out buffer
    while thread 2's SetSegment on the same key is enabled; the two do not conflict (the
